@@ -21,9 +21,10 @@ from .core import R, Z, B, BV, Sym, Unsupported, NonFinite, ite
 class NominalDtype(object):
     """what `x.dtype` answers for an object array holding symbolic scalars."""
 
-    def __init__(self, real, fields=None):
+    def __init__(self, real, rep=None):
         self.real = _np.dtype(real)
         self.symbolic = True
+        self.rep = rep          # 'z': integers held as unbounded Z (no wrap-around modelled)
 
     def __eq__(self, other):
         if isinstance(other, NominalDtype):
@@ -105,7 +106,7 @@ def nominal_dtype(a):
     if 'v' in kinds:
         return NominalDtype(_np.result_type(*bvdt))
     if 'i' in kinds:
-        return NominalDtype(_np.result_type(*bvdt) if bvdt else 'i8')
+        return NominalDtype(_np.result_type(*bvdt) if bvdt else 'i8', rep='z')
     if 'S' in kinds:
         return NominalDtype('S1')
     if 'U' in kinds:
@@ -113,7 +114,9 @@ def nominal_dtype(a):
     return NominalDtype('bool')
 
 
-def _zero_of(dt):
+def _zero_of(dt, rep=None):
+    if rep == 'z':
+        return Z(0)
     if dt.kind == 'f':
         return R(Fraction(0))
     if dt.kind in 'iu':
@@ -229,7 +232,7 @@ def zeros(shape, dtype=float, **kw):
         return _np.zeros(shape, dtype=dtype, **kw)
     dt, symbolic = _resolve_dtype(dtype)
     if symbolic or (dt.kind == 'f' and _mode() == 'exact'):
-        return _fill(shape, _zero_of(dt))
+        return _fill(shape, _zero_of(dt, getattr(dtype, 'rep', None)))
     if isinstance(shape, (Z, tuple, list)):
         shape = int(shape) if isinstance(shape, Z) else tuple(int(s) for s in shape)
     return _np.zeros(shape, dtype=dt, **kw)
@@ -563,18 +566,33 @@ def _sorted_list(vals):
     return out
 
 
+def kth_smallest(vals, k):
+    """order statistic as a *relation*: a fresh real m with  m in vals,  #(v < m) <= k,
+    #(v <= m) >= k+1.  No forks; concrete inputs are sorted directly."""
+    vals = [v if isinstance(v, Sym) else R.lift(v) for v in vals]
+    if all(isinstance(v, R) and v.is_concrete() for v in vals):
+        return sorted(vals, key=lambda r: r.v)[k]
+    c = core.ctx()
+    m = c.fresh_real('ord')
+    terms = [core.zt(v) for v in vals]
+    c.add(z3.Or([m == t for t in terms]))
+    c.add(z3.Sum([z3.If(t < m, 1, 0) for t in terms]) <= k)
+    c.add(z3.Sum([z3.If(t <= m, 1, 0) for t in terms]) >= k + 1)
+    return R(m)
+
+
 def median(a, axis=None, **kw):
     if not core.active() or not _has_sym_content(a):
         return _np.median(a, axis=axis, **kw)
     a = a if isinstance(a, _np.ndarray) else _build_object(a)
     if axis is None:
-        vals = _sorted_list(_flat_elems(a))
+        vals = _flat_elems(a)
         n = len(vals)
         if n == 0:
             raise NonFinite('median of empty array')
         if n % 2:
-            return vals[n // 2]
-        return (vals[n // 2 - 1] + vals[n // 2]) / 2
+            return kth_smallest(vals, n // 2)
+        return (kth_smallest(vals, n // 2 - 1) + kth_smallest(vals, n // 2)) / 2
     moved = _np.moveaxis(a, axis, -1)
     out = _np.empty(moved.shape[:-1], dtype=object)
     for idx in _np.ndindex(out.shape):
@@ -605,8 +623,7 @@ def medfilt(volume, kernel_size=None):
                 vals.append(a[pos])
             else:
                 vals.append(zero)
-        s = _sorted_list(vals)
-        out[idx] = s[len(s) // 2]
+        out[idx] = kth_smallest(vals, len(vals) // 2)
     return out
 
 
@@ -805,7 +822,12 @@ def _m_sum(a, axis=None, **kw):
         for v in vals[1:]:
             tot = tot + (v.as_int() if isinstance(v, B) else v)
         return tot
-    return a.sum(axis=axis, **kw)
+    r = a.sum(axis=axis, **kw)
+    if not isinstance(r, _np.ndarray):
+        out = _np.empty((), dtype=object)
+        out[()] = r
+        return out
+    return r
 
 
 ARRAY_METHODS = {'astype': _m_astype, 'min': _m_min, 'max': _m_max, 'argsort': _m_argsort,
@@ -844,6 +866,49 @@ def index_array(idx):
 
 
 def coerce_for_store(arr, idx, val):
+    """numpy casts on assignment to the destination dtype; an object array has none, so follow the
+    nominal dtype of what it already holds (sized ints <- reals: C truncation; reals <- ints)."""
+    if arr.size == 0:
+        return val
+    sample = arr.flat[0]
+    if isinstance(sample, Z):
+        def convz(e):
+            if isinstance(e, R):
+                return e.trunc_int()
+            if isinstance(e, (float, _np.floating)):
+                return Z(int(e))
+            return e
+        if isinstance(val, _np.ndarray) and val.dtype == object:
+            if not any(isinstance(e, (R, float)) for e in _flat_elems(val)):
+                return val
+            out = _np.empty(val.shape, dtype=object)
+            of = out.reshape(-1)
+            vf = val.reshape(-1)
+            for i in range(vf.size):
+                of[i] = convz(vf[i])
+            return out
+        return convz(val)
+    if isinstance(sample, BV):
+        dt = sample.dtype
+
+        def conv(e):
+            if isinstance(e, BV):
+                return e.cast(dt)
+            return _convert_elem(e, dt)
+        if isinstance(val, Sym) or not isinstance(val, (_np.ndarray, list, tuple)):
+            if isinstance(val, (R, Z, B, BV, int, float, _np.number)):
+                return conv(val)
+            return val
+        v = val if isinstance(val, _np.ndarray) else _build_object(list(val))
+        if v.dtype == object and not any(isinstance(e, (R, Z, B)) or (isinstance(e, BV) and e.dtype != dt)
+                                         for e in _flat_elems(v)):
+            return v
+        out = _np.empty(v.shape, dtype=object)
+        of = out.reshape(-1)
+        vf = v.reshape(-1)
+        for i in range(vf.size):
+            of[i] = conv(vf[i])
+        return out
     return val
 
 
